@@ -29,7 +29,9 @@ def run(tier, seed):
     for viol in res['violations'] + st['violations']:
         if viol['sig'].get('property') == 'C04':
             v.violation(viol['sig'], viol.get('replay'))
-    v.coverage = dict(evaluations=res['steps'], distinct_nontrivial=res['distinct'],
+    import e2e_common
+    e2e_common.report_rules(v, PROP, res['trace_rules'])
+    v.coverage = dict(evaluations=res['steps'], distinct_nontrivial=res['distinct'], child_hook_traces_validated_by_tlc=res['trace_stats'],
                       rule="interrupted run + resumed run per kill plan (evaluations counts process runs); non-trivial = the first run really died at the kill point",
                       samples=res['samples'][:4] + st['samples'][:3], outcomes=res['extra'].get('outcomes'),
                       consistent_states=dict(resumed=st['behaviours'], partial_bitmaps=st['distinct'], outcomes=st['extra'].get('outcomes')), plans_total=res['extra'].get('plans_total'),
